@@ -524,3 +524,35 @@ class NumpyProxy:
 
 
 NPX = NumpyProxy()
+
+
+class NumpyProxyObj(NumpyProxy):
+    """additionally: freshly allocated arrays are object arrays, so that they can receive symbols
+    (np.zeros(n) then item assignment is a frequent idiom in the code under test)"""
+
+    def zeros(self, shape, dtype=None, **kw):
+        a = np.empty(shape, dtype=object)
+        a[...] = 0.0
+        return a
+
+    def ones(self, shape, dtype=None, **kw):
+        a = np.empty(shape, dtype=object)
+        a[...] = 1.0
+        return a
+
+    def zeros_like(self, x, dtype=None, **kw):
+        return self.zeros(np.shape(x))
+
+    def ones_like(self, x, dtype=None, **kw):
+        return self.ones(np.shape(x))
+
+
+NPXO = NumpyProxyObj()
+
+
+def rebind(f, **globs):
+    """the same function of /repo with some of its module globals replaced (never edits /repo)"""
+    import types as _t
+    g = dict(f.__globals__)
+    g.update(globs)
+    return _t.FunctionType(f.__code__, g, f.__name__, f.__defaults__, f.__closure__)
